@@ -290,7 +290,9 @@ class Formatter(FormatterInterface):
     def _(self, oper: L.Neg | L.Not) -> str:
         """Format a unary operation."""
         arg = self(oper.arg)
-        if oper.arg.precedence >= oper.precedence:
+        # Parenthesise also when the operand text starts with the operator
+        # itself (negative literal): "--2.0" is a decrement token in C
+        if oper.arg.precedence >= oper.precedence or arg.startswith(oper.op):
             return f"{oper.op}({arg})"
         return f"{oper.op}{arg}"
 
